@@ -221,6 +221,7 @@ structure Rec where
   text : Text                  -- the text handed to the parser
   ownCharset : Option Name     -- the sheet's own first rule if it is `@charset`, before the final `encoding =`
   reported : Name              -- `rule.styleSheet.encoding` afterwards
+  rules : List RuleK           -- the kinds of `rule.styleSheet.cssRules` afterwards
 deriving DecidableEq, Repr, Inhabited
 
 structure Out where
@@ -242,7 +243,7 @@ structure PState where
 deriving DecidableEq, Repr, Inhabited
 
 def failedRec (d : Nat) (u : Url) (p : Option Name) : Rec :=
-  ⟨d, u, false, p, 9, [], [], none, utf8N⟩
+  ⟨d, u, false, p, 9, [], [], none, utf8N, []⟩
 
 /-- the token loop of `CSSStyleSheet._setCssText` (`cssstylesheet.py:171-351`) over the items; `exp` is `expected` -/
 def parseItems (w : World) (child : ChildLoader) : List Item → Nat → PState → Except Err PState
@@ -334,12 +335,13 @@ def loadChild (w : World) : Nat → Nat → ChildLoader
             | .ok st' =>
               .ok ⟨true, ⟨u :: st'.out.log,
                 ⟨d, u, true, p, r.enctype, r.encoding, t, ownCharsetOf st.sheet.rules,
-                 reported st'.sheet.rules⟩ :: st'.out.recs⟩⟩
+                 reported st'.sheet.rules, st'.sheet.rules⟩ :: st'.out.recs⟩⟩
 
 structure Parsed where
   text : Text                  -- what the tokenizer got
   encoding : Name              -- `sheet.encoding`
   ownCharset : Option Name
+  rules : List RuleK           -- the kinds of `sheet.cssRules`
   out : Out
 deriving DecidableEq, Repr, Inhabited
 
@@ -370,7 +372,7 @@ def parseString (w : World) (fuel : Nat) (input : Content) (enc : Option Name) (
     | .ok st =>
       match finishEO w st enc none with
       | .error e => .error e
-      | .ok st' => .ok ⟨t, reported st'.sheet.rules, ownCharsetOf st.sheet.rules, st'.out⟩
+      | .ok st' => .ok ⟨t, reported st'.sheet.rules, ownCharsetOf st.sheet.rules, st'.sheet.rules, st'.out⟩
 
 /-- `CSSParser(fetcher).parseUrl(href, encoding=enc)`; `none` = returns `None` -/
 def parseUrl (w : World) (fuel : Nat) (href : Url) (enc : Option Name) : Except Err (Option Parsed) :=
